@@ -15,6 +15,7 @@ import (
 type ubiH struct {
 	h   *h18
 	ids map[string]int
+	blocks int // blocks run so far (every third one is preceded by a genesis round trip of ubi or spending)
 }
 
 func (u *ubiH) recStr(rec *ubitypes.UBIRecord) string {
@@ -98,6 +99,11 @@ func (u *ubiH) block(t int64, history *[]string) string {
 		before[rec.Name] = rec
 	}
 	sb := h.snap()
+	if u.blocks++; u.blocks%6 == 3 {
+		h.reimport("ubi")
+	} else if u.blocks%6 == 0 {
+		h.reimport("spending")
+	}
 	room := u.room(h.at(t))
 	err := withCache(h.at(t), func(cc sdk.Context) error { ubi.EndBlocker(cc, uk); return nil })
 	sa := h.snap()
